@@ -1,6 +1,5 @@
 import asyncio
 import base64
-import binascii
 import hashlib
 import json
 import sys
@@ -328,7 +327,7 @@ class WebSocketResponse(StreamResponse, Generic[_DecodeText]):
         try:
             if not key or len(base64.b64decode(key)) != 16:
                 raise HTTPBadRequest(text=f"Handshake error: {key!r}")
-        except binascii.Error:
+        except ValueError:  # binascii.Error, or a non-ASCII character
             raise HTTPBadRequest(text=f"Handshake error: {key!r}") from None
 
         accept_val = base64.b64encode(
